@@ -12,6 +12,9 @@ class equals the real one and the flushed image equals the mirror unit for unit,
 difference.  Afterwards the model adopts the mirror (one defect is reported once; the buffer is the first 196
 bytes of the mirrored VTOC sector, which is what the real buffer holds after a write-back).
 
+  fsd variant <slotFirst> <chunkGuard>          → ok              (0/1 each: which repairs the real source contains, probed by
+                                                                  the harness, `harness/src/fam/fs_dos.rs`; until it is sent
+                                                                  the source as written at the pinned commit is modelled)
   fsd init <spt> <vol> <real>                   → ok | bad …      (blank image of the mirror's size)
   fsd put <name> <fstype-hex> <real> <chunks>   → ok | bad …      chunks: `i:hex,…` (`i:-` = data omitted)
   fsd delete <name> <real>                      → ok | bad …
@@ -29,6 +32,8 @@ open A2Verif.Fs.Dos3x
 
 structure St where
   disk : Disk := { raw := { unitLen := 256, units := #[] }, c := 16, vtoc := none }
+  /-- the variant of the source the real code was probed to be (`fsd variant`) -/
+  rp : Repairs := {}
   deriving Inhabited
 
 def eqBytes : List Nat → List Nat → Bool
@@ -59,9 +64,9 @@ def adopt (c : Nat) (mirror : Raw) : Disk :=
   { raw := mirror, c := c, vtoc := (mirror.units[vtocTrack * c]?).map (·.take vtocLen) }
 
 /-- compare result class and flushed image; adopt the mirror -/
-def verdict {α : Type} (mirror : Raw) (real : String) (out : R α × Disk) : St × String :=
+def verdict {α : Type} (st : St) (mirror : Raw) (real : String) (out : R α × Disk) : St × String :=
   let (res, d') := out
-  let st' : St := { disk := adopt d'.c mirror }
+  let st' : St := { st with disk := adopt d'.c mirror }
   if resTok res ≠ real then (st', s!"bad result model={resTok res} real={real}")
   else match d'.flush with
     | .error e => (st', s!"bad flush {e.token}")
@@ -89,39 +94,45 @@ def typeLabel (t : Nat) : String :=
   if t = 0 ∨ t = 128 then "TXT" else if t = 1 ∨ t = 129 then "INT" else if t = 2 ∨ t = 130 then "BAS"
   else if t = 4 ∨ t = 132 then "BIN" else "$" ++ Hex.toHex [t]
 
+def bit (s : String) : Option Bool := if s == "1" then some true else if s == "0" then some false else none
+
 def handle (mirror : Raw) (st : St) (toks : List String) : St × String :=
   match toks with
+  | ["variant", a, b] =>
+    match bit a, bit b with
+    | some a, some b => ({ st with rp := { slotFirst := a, chunkGuard := b } }, "ok")
+    | _, _ => (st, "bad-request")
   | ["init", spt, vol, real] =>
     match spt.toNat?, vol.toNat? with
     | some spt, some vol =>
       let blank : Disk := { raw := { unitLen := 256, units := Array.replicate mirror.units.size (List.replicate 256 0) }, c := spt, vtoc := none }
-      verdict mirror real (init blank vol spt)
+      verdict st mirror real (init blank vol spt)
     | _, _ => (st, "bad-request")
   | ["put", name, fstype, real, cs] =>
     match Hex.ofHex name, Hex.ofHex fstype, parseChunks cs with
-    | some name, some fstype, some cs => verdict mirror real (put st.disk { fullPath := name, fsType := fstype, chunks := cs })
+    | some name, some fstype, some cs => verdict st mirror real (put st.disk { fullPath := name, fsType := fstype, chunks := cs } st.rp)
     | _, _, _ => (st, "bad-request")
   | ["delete", name, real] =>
     match Hex.ofHex name with
-    | some name => verdict mirror real (delete st.disk name)
+    | some name => verdict st mirror real (delete st.disk name)
     | none => (st, "bad-request")
   | ["rename", old, new, real] =>
     match Hex.ofHex old, Hex.ofHex new with
-    | some old, some new => verdict mirror real (rename st.disk old new)
+    | some old, some new => verdict st mirror real (rename st.disk old new)
     | _, _ => (st, "bad-request")
   | ["lock", name, real] =>
     match Hex.ofHex name with
-    | some name => verdict mirror real (lock st.disk name)
+    | some name => verdict st mirror real (lock st.disk name)
     | none => (st, "bad-request")
   | ["unlock", name, real] =>
     match Hex.ofHex name with
-    | some name => verdict mirror real (unlock st.disk name)
+    | some name => verdict st mirror real (unlock st.disk name)
     | none => (st, "bad-request")
   | ["retype", name, code, real] =>
     match Hex.ofHex name with
     | some name =>
       let ty : Option Nat := if code == "none" then none else code.toNat?
-      verdict mirror real (retype st.disk name ty)
+      verdict st mirror real (retype st.disk name ty)
     | none => (st, "bad-request")
   | ["get", name] =>
     match Hex.ofHex name with
